@@ -20,7 +20,10 @@ package rules
 // cumulative subtraction over exactly the summed weights; its mutants are listed there),
 // c04_types.go (extra obligations of R-C04-3, added for round-2 seeded change b: one concrete
 // balancer type per policy, chosen by the pool's spec only; only NewLoadBalancer's result is stored
-// into the pool's atomic.Value; also the policy -> implementation resolution used by the others).
+// into the pool's atomic.Value; also the policy -> implementation resolution used by the others),
+// c04_shared.go (R-C04-3, round-3 seeded a: no call on stateful objects held in balancer fields or
+// package variables), c04_watch.go (R-C04-7, round-3 seeded b: watchServers always starts the watch
+// goroutine; the watch loop applies every received report until the pool is closed).
 //
 // Tested on the tree this was developed against (scratch worktree @ ce8b88e): exit 1 with
 // exactly one violation,
@@ -112,6 +115,7 @@ type c04Info struct {
 	byPolicy    map[string]*c04Impl
 	byMethod    map[*types.Func]*c04Impl
 	owner       map[*types.Var]string // field -> "pkg/rel.Struct"
+	pool        *types.Struct         // ServerPool
 	policyImpls map[string][]*c04Impl // every implementation a policy can yield
 	cases       []c04PolicyCase       // case clauses of NewLoadBalancer's policy switch
 	outside     *c04TypeSet           // returns of NewLoadBalancer outside the switch (nil = none)
@@ -145,6 +149,7 @@ func c04(c *core.Ctx) string {
 	c04Choose(c, info)
 	c04Bounds(c, info)
 	c04Discovery(c, info)
+	c04Watch(c, info)
 	c04Published(c, info)
 	c04OneType(c, info)
 	c04SSA(c, info)
@@ -180,6 +185,9 @@ func c04Resolve(c *core.Ctx) *c04Info {
 		return nil
 	}
 	info.listType = types.NewSlice(types.NewPointer(info.server))
+	if sp := namedType(c, c04pkg, "ServerPool"); sp != nil {
+		info.pool, _ = sp.Underlying().(*types.Struct)
+	}
 
 	for _, pkg := range c.Prog.Module {
 		sc := pkg.Types.Scope()
